@@ -20,10 +20,10 @@ CHECKS = {
  "C05": ("model_checking", "7 C05", "Ghost multisets of issued and answered requests carried in the explored state: at-most-once issue on every transition of every schedule, every answered result present exactly once in every later data of the peer (SEQ, STREAM, MAP families)."),
  "C06": ("model_checking", "7 C06", "Request ids against a ghost per-peer maximum on every transition; downstream argument values against the sequential reference (routing); one result under a non-pending id on every path (unknown, stale, consumed, 2^32-1) must come back as code 30000 and change nothing."),
  "C08": ("model_checking", "7 C08", "For every quiescent state and every state up to depth 3 of every schedule graph: the peers' data merged in every order and in right-nested groupings at observers and at participating peers; same results by content id, identical traces modulo request senders for stream-free scripts."),
- "C11": ("model_checking", "7 C11", "Per explored state all data of the history bind one canon result per canon site and all consumers see one value; per first canonicalization its elements equal the stream writes replayed/performed before it in that run."),
- "C13": ("model_checking", "7 C13", "Local canonicalization as observation point of the stream content on every run; visit calls of stream folds counted per value and peer in every state (at most once) and compared with the merged stream at every quiescent state, including the bounded recursive stream."),
+ "C11": ("model_checking", "7 C11", "Per explored state all data of the history bind one canon result per canon site and all consumers see one value; per first canonicalization its elements equal the stream writes replayed/performed before it in that run; for scripts that fold over the canonical stream / map, the fold's visits are elements of the canonical value in every state and equal them at every quiescent state."),
+ "C13": ("model_checking", "7 C13", "Local canonicalization as observation point of the stream content on every run; visit calls of every top-level stream fold counted per value, fold and peer in every state (at most once) and compared at every quiescent state with the values of the merged stream written before or inside that fold, including bounded recursive streams and a second fold that appends to the stream it iterates."),
  "C16": ("model_checking", "7 C16", "Every call request of every schedule of every SEQ-family script compared (peer, service, function, argument values) with the call multiset of an independent sequential evaluator; all graphs closed."),
- "C17": ("model_checking", "7 C17", "Tetraplets of every argument of every distinct call request in every schedule compared with the sequential reference (SEQ) or with the producer embedded in the value by the service oracle (STREAM/MAP)."),
+ "C17": ("model_checking", "7 C17", "Tetraplets of every argument of every distinct call request in every schedule compared with the sequential reference (SEQ) or with the producer embedded in the value by the service oracle (STREAM/MAP); whole canonical values (`#%c.$.key`, scalars bound by `canon P %m x` or copied with `ap #c x`) must carry the tetraplet of the peer the canon designates."),
  "C19": ("model_checking", "7 C19", "Per run: requests only for calls addressed to the peer, next peers without self or duplicates, newly sent marks imply next peers; per quiescent state: all data merged at an observer hold no sent-but-unexecuted entry. One known finding (cross-par data dependency) is listed in known_findings.json."),
  "C25": ("exploration", "7 C25", "Finite universe of JSON values (boundary numbers, escaped and non-ASCII strings, nesting to depth 3) x a catalogue of id mutations (listed with accept/reject counts in the evidence), enumerated completely; ids compared with an independent framing, verification verdicts with the accept-iff rule of the statement."),
  "C26": ("exploration", "7 C26", "The same finite universe enumerated completely: conversion, printing, parsing, accessors, navigation and (all ordered pairs of a sub-universe) equality compared with serde_json."),
@@ -60,13 +60,13 @@ CHECKS.update({
  "C24": ("exploration", "7 C24 and 11.8", "Every (value, path, scalar accessor) of a finite universe applied through the real interpreter on scalars, canonical streams and canonical maps and compared with plain JSON navigation: same value and same tetraplet lens, or a catchable error exactly when navigation is impossible. One known finding (absent map key followed by accessors) is listed in known_findings.json."),
 })
 CHECKS.update({
- "C18": ("model_checking", "7 C18 and 11.8", "Every schedule of every ERR script (17 failure kinds x 8 contexts x {uncaught, caught inside, caught outside} x failing peer; xors whose left branch succeeds or still waits; xors over an uncatchable error): the handler is requested only after a catchable failure, never for successful/waiting left branches, never for uncatchable errors; at quiescence of a caught variant the handler has run; the (error_code, message) the handler receives through :error: equal the (ret_code, error_message) the uncaught variant's runs end with."),
+ "C18": ("model_checking", "7 C18 and 11.8", "Every schedule of every ERR script (17 failure kinds x 15 contexts x {uncaught, caught inside, caught outside} x failing peer; xors whose left branch succeeds or still waits; xors over an uncatchable error): the handler is requested only after a catchable failure, never for successful/waiting left branches, never for uncatchable errors; at quiescence of a caught variant the handler has run; the (error_code, message) the handler receives through :error: equal the (ret_code, error_message) the uncaught variant's runs end with."),
  "C27": ("exploration", "7 C27 and 11.8", "Every distinct honest data blob of the harvested explorations round-trips through three encode/decode routes; envelopes around broken inner data (all truncation lengths and byte flips of the first blobs) keep their versions readable and are answered with the data-deserialization error and the previous data; generated call-request and call-result maps round-trip through both decoders; payloads re-tagged with 18 other codec prefixes (MessagePack and JSON bodies) are refused by both decoders and by the interpreter."),
  "C28": ("exploration", "7 C28 and 11.8", "Every generated script the parser accepts is beautified with indent steps 1, 2, 4, 7 and the output, read back as (depth, line) pairs, is compared with an expected rendering computed from the script text by an independent reader: every instruction in order, depth = nesting depth with sequences flattened, compound heads and operands as written."),
 })
 CHECKS.update({
- "C01": ("fault_enumeration", "7 C01 and 11.9", "Adversarial but correctly signed data (the catalogue of C14 at every position of every situation, re-signed by the attacker and not), every truncation and single-byte substitution of honest envelopes fed to execute_air and to to_human_readable_data, name-clash / scope-edge scripts run to quiescence and seq/par/xor/new nested up to 1000 (thorough 100000) deep, each also parsed and beautified: no panic, no dead process, no allocation beyond a 4 GiB address space. Five crash sites were repaired (fixed entries in known_findings.json); one known finding remains (unsound string after deserializing a validated archive, root cause in rkyv 0.7.43)."),
- "C14": ("fault_enumeration", "7 C14 and 11.9", "Every operator of the tamper catalogue (numbers, arrays, state kinds, re-pointed / consistently forged / relocated / swapped results, removed store entries, signatures, particle ids) at every position of every harvested situation, singly and as ordered pairs, re-signed by the attacker and not: the victim either rejects the data or its new data verifies and holds, for every honest peer, only results the honest outcome holds at the same call site."),
+ "C01": ("fault_enumeration", "7 C01 and 11.9", "Adversarial but correctly signed data (the catalogue of C14 at every position of every situation, re-signed by the attacker and not), every truncation and single-byte substitution of honest envelopes fed to execute_air and to to_human_readable_data, name-clash / scope-edge scripts run to quiescence and seq/par/xor/new nested up to 1000 (thorough 100000) deep, each also parsed and beautified: no panic, no dead process, no allocation beyond a 4 GiB address space. Nine crash sites were repaired (fixed entries in known_findings.json); one known finding remains (unsound string after deserializing a validated archive, root cause in rkyv 0.7.43)."),
+ "C14": ("fault_enumeration", "7 C14 and 11.9", "Every operator of the tamper catalogue (numbers, arrays, state kinds, re-pointed / consistently forged / relocated / swapped results, removed store entries, signatures, particle ids) at every position of every harvested situation, singly and as ordered pairs, re-signed by the attacker and not: the victim either rejects the data or its new data holds, for every honest peer, only results the honest outcome holds at the same call site, each stored with the value, tetraplet and argument hash its owner signed."),
  "C23": ("exploration", "7 C23 and 11.8", "Totality over all token strings up to length 4 (thorough 5) over a 26-token alphabet (Err or an Ok tree without error nodes, never a panic); Ok implies well-scoped (an independent ScopeCheck on the text) for every generated script and every single scope mutation of it. Two validator defects were repaired (fixed entries), two remain as known findings because the repository's own tests pin them (next after its fold; fail with an undefined scalar)."),
 })
 CHECKS.update({
